@@ -64,6 +64,65 @@ func (r recFs) Open(name string) (afero.File, error) {
 	return r.Fs.Open(name)
 }
 
+// linkRec: a source that supports links and records the names it is handed
+type linkRec struct {
+	afero.Fs
+	sym   *[][2]string
+	names *[]string
+}
+
+func (l linkRec) SymlinkIfPossible(o, n string) error {
+	*l.sym = append(*l.sym, [2]string{o, n})
+	return nil
+}
+func (l linkRec) ReadlinkIfPossible(n string) (string, error) {
+	*l.names = append(*l.names, n)
+	return "", os.ErrNotExist
+}
+func (l linkRec) LstatIfPossible(n string) (os.FileInfo, bool, error) {
+	*l.names = append(*l.names, n)
+	return nil, true, os.ErrNotExist
+}
+
+func symlinkCase(c *Ctx, id string, base, o, n []byte) {
+	var sym [][2]string
+	var names []string
+	bp := afero.NewBasePathFs(linkRec{afero.NewMemMapFs(), &sym, &names}, string(base)).(*afero.BasePathFs)
+	bp.SymlinkIfPossible(string(o), string(n))
+	out := "refused"
+	cb := cleanGo(string(base))
+	if len(sym) > 0 {
+		out = "ok:" + hx([]byte(sym[0][0])) + ":" + hx([]byte(sym[0][1]))
+		for _, p := range sym[0] {
+			if !insideSegs(cleanGo(p), cb) {
+				c.Oracle("FAIL %s symlink-escape base=%q old=%q new=%q -> source called with %q", id, base, o, n, p)
+			}
+		}
+	}
+	c.NCases++
+	c.Case("symlink %s %s %s %s", id, hx(base), hx(o), hx(n))
+	c.Impl("%s %s", id, out)
+	c.Count("symlink." + strings.SplitN(out, ":", 2)[0])
+	// Lstat and Readlink of the link name
+	names = nil
+	bp.LstatIfPossible(string(o))
+	bp.ReadlinkIfPossible(string(o))
+	out = "refused"
+	if len(names) == 2 {
+		out = "ok:" + hx([]byte(names[0])) + ":" + hx([]byte(names[1]))
+		for _, p := range names {
+			if !insideSegs(cleanGo(p), cb) {
+				c.Oracle("FAIL %s lstat-readlink-escape base=%q name=%q -> source called with %q", id, base, o, p)
+			}
+		}
+	} else if len(names) != 0 {
+		out = fmt.Sprintf("partial:%d", len(names))
+	}
+	c.NCases++
+	c.Case("lname %sL %s %s", id, hx(base), hx(o))
+	c.Impl("%sL %s", id, out)
+}
+
 func httpdirCase(c *Ctx, id string, root, name []byte) {
 	var names []string
 	h := afero.NewHttpFs(recFs{afero.NewMemMapFs(), &names})
@@ -224,6 +283,10 @@ func runC08(c *Ctx) {
 				realpathCase(c, t[1], unhx(t[2]), unhx(t[3]))
 			case "httpdir":
 				httpdirCase(c, t[1], unhx(t[2]), unhx(t[3]))
+			case "symlink":
+				symlinkCase(c, t[1], unhx(t[2]), unhx(t[3]), unhx(t[4]))
+			case "lname":
+				// produced together with its symlink case
 			case "case":
 				c08Case(c, t[1], t[2], cs[1:len(cs)-1])
 			}
@@ -247,6 +310,17 @@ func runC08(c *Ctx) {
 	for _, rt := range []string{"/", "/a", "/a/b", "a", ""} {
 		for _, nm := range names {
 			httpdirCase(c, fmt.Sprintf("hd%d", k), []byte(rt), nm)
+			k++
+		}
+	}
+	// symlinks: every pair of short names (relative and absolute targets) for two roots
+	short := allStrings([]byte{'a', '.', '/'}, 4)
+	for _, rt := range []string{"/a", "/a/b"} {
+		for i, o := range short {
+			n := short[(i*7+3)%len(short)]
+			symlinkCase(c, fmt.Sprintf("sl%d", k), []byte(rt), o, n)
+			k++
+			symlinkCase(c, fmt.Sprintf("sl%d", k), []byte(rt), n, []byte("door"))
 			k++
 		}
 	}
